@@ -246,7 +246,10 @@ def main():
         "checks": checks,
         "not_applicable": na,
         "notes": "Known findings: /verif/known_findings.json (committed, read-only at run time). "
-                 "Replays: /verif/replays/<id>/*.json. VERIF_SEED selects the Hypothesis seed.",
+                 "Replays: /verif/replays/<id>/*.json. VERIF_SEED selects the Hypothesis seed. Every check also draws terms "
+                 "that are large along one dimension of a size ladder (DESIGN 12.5) and repeats one generated-search shard and "
+                 "one exhaustive slice in child interpreters that differ from the default (python -O, TZ, hash seed, a busy second "
+                 "thread, tree provenance; DESIGN 12.6); VERIF_NO_ENV_VARIANTS=1 switches the latter off.",
     }
     with open(os.path.join(HERE, "MANIFEST.json"), "w") as f:
         json.dump(man, f, indent=1)
